@@ -28,6 +28,7 @@ static char *prog[MAXTH]; static int nprog;
 static char tn[MAXTH+8][8]; static char crn[8][8]; static struct call_rcu_data *crds[8]; static int ncrd;
 static void name_crd(struct call_rcu_data *c){ (void)c; }
 static char mnames[64][8]; static int nm;
+static void *scen_reader[MAXTH]; /* reader records of the scenario threads: anything else in the registry at a fork point belongs to a helper */
 void *vs_named_malloc(size_t sz){ void *p=calloc(1,sz<16?16:sz);
 	if(sz==sizeof(struct call_rcu_data) && ncrd<8){ sprintf(crn[ncrd],"crd%d",ncrd); vs_region(p,sz,crn[ncrd]); crds[ncrd++]=p; }
 	else if(nm<64){ sprintf(mnames[nm],"m%d",nm); vs_region(p,sz<16?16:sz,mnames[nm]); nm++; }
@@ -41,6 +42,7 @@ static void cb(struct rcu_head *h){ struct obj *o=caa_container_of(h,struct obj,
 	vs_ret("cb",o->id); }
 static void body(int t){
 	sprintf(tn[t],"rd%d",t); vs_region(&URCU_TLS(rcu_reader).ctr,sizeof(unsigned long),tn[t]);
+	scen_reader[t]=&URCU_TLS(rcu_reader);
 	vs_quiet_begin(); rcu_register_thread(); vs_quiet_end();
 	int depth=0;
 	for(char *p=prog[t]; *p; p++){
@@ -56,6 +58,9 @@ static void body(int t){
 			for(int k=0;k<ncrd;k++){ char buf[256]; int l=0; buf[0]=0; struct cds_wfcq_node *n=crds[k]->cbs_head.node.next; int g=0;
 				while(n && g++<40){ struct rcu_head *rh=caa_container_of(n,struct rcu_head,next); if((char*)rh>=(char*)O && (char*)rh<(char*)(O+NO)) l+=sprintf(buf+l,"%d,",((struct obj*)rh)->id); else l+=sprintf(buf+l,"x,"); n=n->next; }
 				vs_note("forkq %d flags %lu : %s",k,crds[k]->flags,buf); }
+			{ /* what fork() would copy of the reader registry: the lock must be free and no helper registered */
+			  int foreign=0; struct urcu_reader *rr; cds_list_for_each_entry(rr,&registry,node){ int mine=0; for(int k=0;k<MAXTH;k++) if(scen_reader[k]==(void*)rr) mine=1; if(!mine) foreign++; }
+			  vs_note("forkreg owner %d foreign %d", vs_mutex_owner(&rcu_registry_lock), foreign); }
 			vs_quiet_end(); vs_note("forkpoint");
 			vs_call("afterfork",0); call_rcu_after_fork_parent(); vs_ret("afterfork",0); break; }
 		case 'B': vs_call("barrier",0); rcu_barrier(); vs_ret("barrier",0); break;
